@@ -4,6 +4,7 @@
 package w18
 
 import (
+	"reflect"
 	"fmt"
 	"sort"
 	"strings"
@@ -46,6 +47,73 @@ func readWalk(ms *yang.Modules) {
 		}
 		walk(root, 0)
 	}
+}
+
+// typedefStates lists every typedef statement of the set (found by walking the ASTs through
+// their keyword fields) with the state of its resolution: a typedef that no leaf uses is
+// resolved by Process alone, so whether that happened shows only here.
+func typedefStates(ms *yang.Modules) []string {
+	var out []string
+	seen := map[yang.Node]bool{}
+	nodeT := reflect.TypeOf((*yang.Node)(nil)).Elem()
+	var walk func(n yang.Node, d int)
+	walk = func(n yang.Node, d int) {
+		v := reflect.ValueOf(n)
+		if n == nil || v.Kind() != reflect.Ptr || v.IsNil() || seen[n] || d > 200 {
+			return
+		}
+		seen[n] = true
+		if td, ok := n.(*yang.Typedef); ok {
+			st := "unresolved"
+			if y := td.YangType; y != nil {
+				st = fmt.Sprintf("%s kind=%v range=%v length=%v fd=%d pat=%q units=%q def=%q/%v", y.Name, y.Kind, y.Range, y.Length, y.FractionDigits, y.Pattern, y.Units, y.Default, y.HasDefault)
+				if y.Enum != nil {
+					st += fmt.Sprintf(" enum=%v/%v", y.Enum.Names(), y.Enum.Values())
+				}
+				if y.IdentityBase != nil {
+					st += fmt.Sprintf(" idbase=%s#%d", y.IdentityBase.Name, len(y.IdentityBase.Values))
+				}
+				st += fmt.Sprintf(" members=%d", len(y.Type))
+			}
+			out = append(out, yang.Source(td)+" typedef "+td.Name+": "+st)
+		}
+		e := v.Elem()
+		if e.Kind() != reflect.Struct {
+			return
+		}
+		for i := 0; i < e.NumField(); i++ {
+			tag := e.Type().Field(i).Tag.Get("yang")
+			if tag == "" || (tag[0] >= 'A' && tag[0] <= 'Z') {
+				continue // Name, Statement, Parent, Extensions: not substatement fields
+			}
+			f := e.Field(i)
+			switch {
+			case f.Kind() == reflect.Ptr && f.Type().Implements(nodeT) && !f.IsNil():
+				walk(f.Interface().(yang.Node), d+1)
+			case f.Kind() == reflect.Slice && f.Type().Elem().Implements(nodeT):
+				for k := 0; k < f.Len(); k++ {
+					walk(f.Index(k).Interface().(yang.Node), d+1)
+				}
+			}
+		}
+	}
+	var keys []string
+	for k := range ms.Modules {
+		keys = append(keys, "M"+k)
+	}
+	for k := range ms.SubModules {
+		keys = append(keys, "S"+k)
+	}
+	sort.Strings(keys)
+	for _, k := range keys {
+		if k[0] == 'M' {
+			walk(ms.Modules[k[1:]], 0)
+		} else {
+			walk(ms.SubModules[k[1:]], 0)
+		}
+	}
+	sort.Strings(out)
+	return out
 }
 
 // firstDiff returns the first differing line pair.
@@ -110,6 +178,12 @@ func Run(j *job.Job, s *job.Sink) {
 				ops = append(ops, op{"bad", m.Name + ".bad.yang", bt})
 			}
 			ops = append(ops, op{"load", m.Name + ".yang", t})
+			if r.Intn(5) == 0 {
+				// a read between a load and the next processing run (the caller converts
+				// what is there so far): whatever it returns, it must not change what
+				// the next run reports
+				ops = append(ops, op{Kind: "earlyread"})
+			}
 			if r.Intn(3) == 0 {
 				ops = append(ops, op{Kind: "process"})
 				if r.Intn(2) == 0 {
@@ -332,6 +406,7 @@ func Run(j *job.Job, s *job.Sink) {
 			failedLoads := 0
 			processedBefore := false
 			lastClean := false
+			everProcessed, lastProcClean := false, false
 			for step, o := range ops {
 				switch o.Kind {
 				case "bad":
@@ -381,6 +456,12 @@ func Run(j *job.Job, s *job.Sink) {
 					if lastClean {
 						readWalk(ms)
 					}
+				case "earlyread":
+					// not after a failed run either: only its errors "come back"
+					if !everProcessed || lastProcClean {
+						s.Count("reads_between_load_and_process", 1)
+						readWalk(ms)
+					}
 				case "reread":
 					// the caller drops the entry cache and converts everything again on its own
 					// (both public API), which must not disturb the next Process either
@@ -392,6 +473,7 @@ func Run(j *job.Job, s *job.Sink) {
 					s.Count("process_steps_compared", 1)
 					perrs := ms.Process()
 					lastClean = len(perrs) == 0
+					everProcessed, lastProcClean = true, lastClean
 					live := dump.Set(ms, perrs, true)
 					fresh := yang.NewModules()
 					for _, gd := range good {
@@ -409,7 +491,7 @@ func Run(j *job.Job, s *job.Sink) {
 							mk = append(mk, "S "+k)
 						}
 						sort.Strings(mk)
-						return strings.Join(mk, "\n") + "\n-- typedefs\n" + strings.Join(m.VerifTypedefKeys(), "\n") + "\n-- identities\n" + strings.Join(m.VerifIdentityKeys(), "\n")
+						return strings.Join(mk, "\n") + "\n-- typedefs\n" + strings.Join(m.VerifTypedefKeys(), "\n") + "\n-- identities\n" + strings.Join(m.VerifIdentityKeys(), "\n") + "\n-- typedef statements\n" + strings.Join(typedefStates(m), "\n")
 					}
 					s.Count("table_snapshots_compared", 1)
 					if ls, bs := snap(ms), snap(fresh); ls != bs {
